@@ -25,6 +25,7 @@ type pathEnd struct {
 type goPanic struct {
 	val Value
 	msg string
+	pos string
 }
 
 type Decision struct {
@@ -88,6 +89,8 @@ type Path struct {
 	inInit   int
 	forks    int
 	nchoice  int
+	lastPos  token.Pos
+	curFn    *ssa.Function
 	pools    map[*Obj][]Value
 	funcs    map[*ssa.Function]bool
 	stubs    map[string]bool
@@ -125,7 +128,15 @@ func (p *Path) unsupported(format string, a ...interface{}) {
 }
 
 func (p *Path) gopanic(msg string) {
-	panic(&goPanic{val: &IfaceV{T: types.Typ[types.String], V: StrV(msg)}, msg: msg})
+	panic(&goPanic{val: &IfaceV{T: types.Typ[types.String], V: StrV(msg)}, msg: msg, pos: p.where()})
+}
+
+// where describes the source position of the instruction being executed.
+func (p *Path) where() string {
+	if p.curFn == nil {
+		return ""
+	}
+	return p.curFn.String() + " " + posStr(p.E.Fset, p.lastPos)
 }
 
 // ---------- path condition & forking ----------
